@@ -451,6 +451,14 @@ def run_case(c):
         i = c["i"]
         st, p = attempt(lambda: mesh.index2point(tuple(i)))
         inr = len(i) == len(n) and all(0 <= a < k for a, k in zip(i, n))
+        # the same index spelled as list / ndarray / numpy integers gives the same outcome
+        alts = [list(i), np.array(i, dtype=np.int64), tuple(np.int32(a) for a in i)]
+        if all(0 <= a < 256 for a in i):
+            alts.append(tuple(np.uint8(a) for a in i))
+        for alt in alts:
+            st_a, p_a = attempt(lambda: mesh.index2point(alt))
+            if st_a != st or (st == "ok" and not np.array_equal(p_a, p)):
+                rec["oracle"].append("index-spelling")
         if st == "ok":
             obs = dict(p=js(p))
             coq_obs = f"(Some {g.ql(obs['p'])})"
@@ -479,6 +487,14 @@ def run_case(c):
         st, idx = attempt(lambda: mesh.point2index(tuple(p)))
         st_in, isin = attempt(lambda: bool(tuple(p) in mesh.region))
         obs_in = bool(isin) if st_in == "ok" else False
+        # the same point spelled as list / ndarray / numpy floats gives the same outcome
+        for alt in (list(p), np.array(p, dtype=np.float64), tuple(np.float64(x) for x in p)):
+            st_a, idx_a = attempt(lambda: mesh.point2index(alt))
+            if st_a != st or (st == "ok" and [int(a) for a in idx_a] != [int(a) for a in idx]):
+                rec["oracle"].append("point-spelling")
+            st_b, in_b = attempt(lambda: bool(alt in mesh.region))
+            if st_b != st_in or (st_in == "ok" and bool(in_b) != bool(isin)):
+                rec["oracle"].append("point-spelling")
         tf = float(F(m["tf"]))
         pq = [F(x) for x in c["p"]]
         if st == "ok":
